@@ -5,6 +5,7 @@ import (
 	"fmt"
 	"os"
 	"path/filepath"
+	"strings"
 	"sync/atomic"
 	"time"
 
@@ -26,6 +27,7 @@ type e2eFault struct {
 	kind string
 	at   int64
 	s    int
+	note string
 }
 
 func runC02e2e(cfg config, rep *hx.Report, n int) {
@@ -107,13 +109,31 @@ func runC02e2e(cfg config, rep *hx.Report, n int) {
 				}
 			}
 		case "output-obstructed":
-			// a directory sits where the first non-empty file should go
+			// an entry of the wrong kind sits on an output path: a directory where a file
+			// (empty or not) should go, a regular file where a directory should go (an
+			// empty directory of the tree, or the parent directory of a file)
+			type obst struct{ how, rel string }
+			var cands []obst
 			for _, tf := range tree.files {
-				if len(tf.data) > 0 {
-					os.MkdirAll(filepath.Join(out, filepath.FromSlash(tf.rel), "blocker"), 0755)
-					fired.Store(true)
-					break
+				cands = append(cands, obst{"dir-at-file", tf.rel})
+				if k := strings.LastIndex(tf.rel, "/"); k > 0 {
+					cands = append(cands, obst{"file-at-dir", tf.rel[:k]})
 				}
+			}
+			for _, d := range tree.dirs {
+				cands = append(cands, obst{"file-at-dir", d}, obst{"file-at-dir", d})
+			}
+			if len(cands) > 0 {
+				o := cands[rng.Intn(len(cands))]
+				target := filepath.Join(out, filepath.FromSlash(o.rel))
+				if o.how == "dir-at-file" {
+					os.MkdirAll(filepath.Join(target, "blocker"), 0755)
+				} else {
+					os.MkdirAll(filepath.Dir(target), 0755)
+					os.WriteFile(target, []byte("in the way"), 0644)
+				}
+				f.note = o.how + ":" + o.rel
+				fired.Store(true)
 			}
 		case "cancel-sender", "cancel-receiver":
 			delay := time.Duration(rng.Intn(4000)) * time.Microsecond
@@ -149,7 +169,7 @@ func runC02e2e(cfg config, rep *hx.Report, n int) {
 		res := runXfer(src, out, c)
 		rep.Evaluations++
 		rep.Count("e2e:" + f.kind)
-		desc := map[string]any{"tree_seed": seed, "cs": cs, "streams": streams, "resume": resume, "fault": f.kind, "at": f.at, "stream": f.s, "quic_like": c.quicLike}
+		desc := map[string]any{"tree_seed": seed, "cs": cs, "streams": streams, "resume": resume, "fault": f.kind, "at": f.at, "stream": f.s, "quic_like": c.quicLike, "detail": f.note}
 		sOK := res.sendDone && res.sendErr == nil
 		rOK := res.recvDone && res.recvErr == nil
 		if fired.Load() {
